@@ -6,7 +6,7 @@ preserves `CleanBut S` for every `S` (whatever it allocates it wipes, on every p
 functions that hand a dirty buffer to their caller (`newBuf`, `kmsDecrypt`) have explicit triples.
 -/
 set_option linter.unusedVariables false
-namespace AsherahVerif.Env
+namespace AsherahVerif.Env.Res
 
 def CleanBut (S : List Nat) (w : World) : Prop :=
   ∀ i b, w.bufs[i]? = some b → i ∉ S → b.wiped = true
@@ -97,7 +97,7 @@ theorem kmsDecrypt_spec (c : Ct) : BufSpec (kmsDecrypt c) (fun p => [p.1]) := by
 
 theorem takeFault_cb (S : List Nat) : Preserves (CleanBut S) takeFault := takeFault_preserves (fun _ _ h => h)
 
-theorem Preserves.ofTriple {α : Type} {I : World → Prop} {x : M α} (h : Triple I x (fun _ w => I w)) : Preserves I x :=
+theorem _root_.AsherahVerif.Env.Preserves.ofTriple {α : Type} {I : World → Prop} {x : M α} (h : Triple I x (fun _ w => I w)) : Preserves I x :=
   fun w hw => h w hw
 
 theorem secretNew_pres (b m : Nat) (S : List Nat) : Preserves (CleanBut S) (secretNew b m) := fun w hw =>
@@ -305,4 +305,4 @@ theorem runOps_cb (S : List Nat) (ops : List Op) (w : World) (h : CleanBut S w) 
   | nil => exact h
   | cons op rest ih => rw [runOps_snd_cons]; exact ih _ (applyOp_cb S w op h)
 
-end AsherahVerif.Env
+end AsherahVerif.Env.Res
